@@ -363,7 +363,7 @@ func init() {
 		Rule: "real janitor gated at EvictionNeeded / Stats.Add(cache_evict); seeded cases: L in {10,100,1000}, n in {L-1,L,L+1,2L,10L}, EvictFraction in {default,0.01,0.1,0.5,0.51,1}, strategy {MostExpired,LRU,LFU}, " +
 			"trigger {none,count breach,EvictionNeeded=true once,HeapInUseSoftLimit=1,count+heap}, seeded access history; after exactly one eviction cycle the amount, the cache_evict metric and the strategy order " +
 			"(max rank of removed <= min rank of kept) are judged; distinct_nontrivial = distinct (backend,strategy,trigger,L,n,fraction) cells in which an eviction was due",
-		Required:    []string{"converge.trials", "cases.with_long_expired", "cases.no_trigger", "cases.count", "cases.needed", "cases.heap", "evictions.judged", "order.pairs_checked", "strategy.MostExpired", "strategy.LRU", "strategy.LFU", "lfu.heavily_served_cases"},
+		Required:    []string{"converge.trials", "cases.with_long_expired", "cases.no_trigger", "cases.count", "cases.needed", "cases.heap", "evictions.judged", "order.pairs_checked", "strategy.MostExpired", "strategy.LRU", "strategy.LFU", "lfu.heavily_served_cases", "keys.colliding_pairs", "cases.expireall_after_access_history"},
 		Assumptions: []string{"HeapInuse of the child process exceeds 1 byte; wall clock strictly advanced between LRU reads (spin)"},
 		Timeout:     func(string) time.Duration { return 45 * time.Minute },
 	})
@@ -490,8 +490,17 @@ func c12Case(b *Batch, idx int) {
 		// the content is built in another instance and arrives through Dump/Restore: this instance never sees a TTL'd Write
 		target = newBackend(kind, cache.Config{TimeToLive: cfg.TimeToLive, ExpirationJitter: -1})
 	}
+	collidingPairs := kind == "SyncMap" && rng.Intn(3) == 0 // SyncMap keeps keys with equal xxhash64 apart: eviction must too
+	var pair [][]byte
 	for i := 0; i < n; i++ {
 		k := fmt.Sprintf("e%05d", i)
+		if collidingPairs && i < n/2 {
+			if i%2 == 0 {
+				pair = collidingKeys(rng, 2)
+				b.R.Count("keys.colliding_pairs", 1)
+			}
+			k = string(pair[i%2])
+		}
 		keys[i] = k
 		ctx := bg
 		switch {
@@ -595,6 +604,13 @@ func c12Case(b *Batch, idx int) {
 			}
 			rank[k]++
 		}
+	}
+	if sNames[si] != "MostExpired" && rng.Intn(4) == 0 {
+		// ExpireAll after the access history was made: entries are expired now, their usage ranks are what they were
+		be.ExpireAll(bg)
+		b.R.Count("cases.expireall_after_access_history", 1)
+		cell += "/expireall-after-reads"
+		w["cell"] = cell
 	}
 	// sometimes long-expired entries are present as well: the cycle purges them first, eviction is judged on what is left
 	nDead := 0
@@ -1339,8 +1355,13 @@ func c11RestoreOnly(b *Batch, idx int) {
 				parked = true
 				src := newBackend(kind, cache.Config{TimeToLive: cache.UnlimitedTTL})
 				n := 2 + rng.Intn(8)
+				withExpiry := rng.Intn(2) == 0 // the entries arrive with their own (past) expiry instead of being expired here
 				for i := 0; i < n; i++ {
-					src.Write(bg, []byte(fmt.Sprintf("r-%d", i)), "v")
+					if withExpiry {
+						src.Write(cache.WithTTL(bg, -time.Millisecond, false), []byte(fmt.Sprintf("r-%d", i)), "v")
+					} else {
+						src.Write(bg, []byte(fmt.Sprintf("r-%d", i)), "v")
+					}
 				}
 				var buf bytes.Buffer
 				if _, err := src.Dump(&buf); err != nil {
@@ -1349,7 +1370,9 @@ func c11RestoreOnly(b *Batch, idx int) {
 				if _, err := be.Restore(&buf); err != nil {
 					return
 				}
-				be.ExpireAll(bg)
+				if !withExpiry {
+					be.ExpireAll(bg)
+				}
 				time.Sleep(D + 20*time.Millisecond)
 				tr := time.Now()
 				g.release(false)
@@ -1366,7 +1389,7 @@ func c11RestoreOnly(b *Batch, idx int) {
 				var oldest time.Time
 				be.Walk(func(_ []byte, _ interface{}, exp timeT) error { left++; oldest = exp; return nil })
 				if left != 0 {
-					b.R.Violate(b, idx, "C11:"+kind+":restored-then-expired-survived", fmt.Sprintf("%d of %d entries that arrived by Restore and were expired by ExpireAll %v before the cycle (DeleteExpiredAfter %v) survived it (unlimited=%v, no Write ever happened on this cache)", left, n, tr.Sub(oldest).Round(time.Millisecond), D, unlimited), nil)
+					b.R.Violate(b, idx, "C11:"+kind+":restored-then-expired-survived", fmt.Sprintf("%d of %d entries that arrived by Restore and expired (by ExpireAll here, or before they were dumped) %v before the cycle (DeleteExpiredAfter %v) survived it (unlimited=%v, no Write ever happened on this cache)", left, n, tr.Sub(oldest).Round(time.Millisecond), D, unlimited), nil)
 				}
 			}()
 			runtime.KeepAlive(be)
